@@ -177,7 +177,7 @@ def scenario_histories():
     return hs
 
 
-LABELS = {'C01': ('C01',), 'C04': ('C04',), 'C06': ('C06', 'C06epoch'), 'C10': ('C10', 'C01'), 'C12': ('C12', 'C12repl'),
+LABELS = {'C01': ('C01',), 'C04': ('C04',), 'C06': ('C06', 'C06epoch', 'C01'), 'C10': ('C10', 'C01'), 'C12': ('C12', 'C12repl'),
           'C13': ('C13',), 'C18': ('C18',)}
 
 
